@@ -4,6 +4,7 @@ import (
 	"context"
 	"fmt"
 	"net/url"
+	"os"
 	"sort"
 	"strings"
 	"testing"
@@ -73,6 +74,13 @@ func (sc *scenario) distinctContents() []string {
 }
 
 func genScenario(rt *rapid.T) scenario {
+	return genScenarioWith(rt, 9, nil)
+}
+
+// genScenarioWith generates an action with at most maxUploads outputs. If
+// reuse is not empty, about half of the outputs take their contents from it
+// (the outputs of an earlier action on the same pipeline).
+func genScenarioWith(rt *rapid.T, maxUploads int, reuse []string) scenario {
 	sc := scenario{
 		DoNotCache:  rapid.IntRange(0, 4).Draw(rt, "do_not_cache") == 0,
 		Request:     rapid.SampledFrom([]string{"ok", "ok", "ok", "ok", "ok", "ok", "ok", "ok", "ok", "ok", "nil_action", "bad_digest"}).Draw(rt, "request"),
@@ -86,7 +94,7 @@ func genScenario(rt *rapid.T) scenario {
 	sc.Code = int32(rapid.SampledFrom([]codes.Code{codes.OK, codes.OK, codes.OK, codes.OK, codes.DeadlineExceeded, codes.Internal, codes.InvalidArgument}).Draw(rt, "code"))
 	sc.ExitCode = rapid.SampledFrom([]int32{0, 0, 0, 0, 1, 2, -1, 255}).Draw(rt, "exit_code")
 
-	n := rapid.IntRange(0, 9).Draw(rt, "n_uploads")
+	n := rapid.IntRange(0, maxUploads).Draw(rt, "n_uploads")
 	haveStdout, haveStderr := false, false
 	for i := 0; i < n; i++ {
 		role := rapid.SampledFrom([]string{"file", "file", "file", "tree", "tree", "rootdir", "stdout", "stderr", "log"}).Draw(rt, "role")
@@ -102,9 +110,13 @@ func genScenario(rt *rapid.T) scenario {
 			}
 			haveStderr = true
 		}
+		from := contentPool
+		if len(reuse) > 0 && rapid.Bool().Draw(rt, "reuse_earlier_content") {
+			from = reuse
+		}
 		sc.Uploads = append(sc.Uploads, upload{
 			Role:  role,
-			Data:  rapid.SampledFrom(contentPool).Draw(rt, "data"),
+			Data:  rapid.SampledFrom(from).Draw(rt, "data"),
 			Style: rapid.IntRange(0, 1).Draw(rt, "style"),
 		})
 	}
@@ -213,38 +225,82 @@ type observation struct {
 
 var browserURL = &url.URL{Scheme: "http", Host: "browser.example"}
 
-// runPipeline builds the worker's executor stack in the order of
+// plannedFault is one entry of a fault plan: the call (by its
+// schedule-independent key) and what happens to it.
+type plannedFault struct {
+	Key      string     `json:"key"`
+	Class    string     `json:"class"`
+	Kind     string     `json:"kind"`
+	Code     codes.Code `json:"-"`
+	CodeName string     `json:"code,omitempty"`
+}
+
+// classOfKey classifies a fallible call by its key alone: fm, put (output
+// blob through the batched writer), her (historical execute response), ac.
+func classOfKey(key string) string {
+	switch {
+	case strings.HasPrefix(key, "ACPUT#"):
+		return "ac"
+	case strings.HasPrefix(key, "FM#"):
+		return "fm"
+	case strings.HasPrefix(key, "PUT:other#"):
+		return "her"
+	}
+	return "put"
+}
+
+// pipeline is the worker's executor stack, assembled once in the order of
 // cmd/bb_worker/main.go (base executor writing through the batched CAS
-// writer -> storage flushing -> caching over the global CAS and the AC)
-// and executes the scenario once under the given fault plan.
-func runPipeline(sc *scenario, plan map[string]string, code codes.Code) *observation {
+// writer -> storage flushing -> caching over the global CAS and the AC).
+// As in the worker, ONE batched writer/flusher pair and ONE executor stack
+// serve all consecutive actions.
+type pipeline struct {
+	w        *world
+	cas      *fakeCAS
+	ac       *fakeAC
+	base     *scriptedExecutor
+	executor builder.BuildExecutor
+	flushes  []error // what the flush callback returned, per call
+}
+
+func newPipeline(batchSize int, concurrency int64, preexisting, delayOrder []string, plan []plannedFault) *pipeline {
 	w := newWorld()
-	for k, v := range plan {
-		w.plan[k] = v
-		w.planCode[k] = code
+	for _, f := range plan {
+		w.plan[f.Key] = f.Kind
+		w.planCode[f.Key] = f.Code
 	}
-	globalCAS := newFakeCAS(w)
-	for _, c := range sc.Preexisting {
-		globalCAS.blobs[keyOf(digestOf([]byte(c)))] = []byte(c)
+	p := &pipeline{w: w, cas: newFakeCAS(w)}
+	for _, c := range preexisting {
+		p.cas.blobs[keyOf(digestOf([]byte(c)))] = []byte(c)
 	}
-	for i, c := range sc.DelayOrder {
+	for i, c := range delayOrder {
 		w.delays[keyOf(digestOf([]byte(c)))] = time.Duration(i+1) * time.Millisecond
 	}
-	actionCache := &fakeAC{w: w, cas: globalCAS}
+	p.ac = &fakeAC{w: w, cas: p.cas}
 
-	writer, flusher := re_blobstore.NewBatchedStoreBlobAccess(globalCAS, digest.KeyWithoutInstance, sc.BatchSize, semaphore.NewWeighted(sc.Concurrency))
-	base := &scriptedExecutor{sc: sc, w: w, writer: writer}
+	writer, flusher := re_blobstore.NewBatchedStoreBlobAccess(p.cas, digest.KeyWithoutInstance, batchSize, semaphore.NewWeighted(concurrency))
+	p.base = &scriptedExecutor{w: w, writer: writer}
 	// The flusher is wrapped only to observe what it reports.
-	var flushResults []error
 	observedFlusher := func(ctx context.Context) error {
 		err := flusher(ctx)
-		flushResults = append(flushResults, err)
+		p.flushes = append(p.flushes, err)
 		return err
 	}
-	var executor builder.BuildExecutor = builder.NewStorageFlushingBuildExecutor(base, observedFlusher)
-	executor = builder.NewCachingBuildExecutor(executor, globalCAS, actionCache, browserURL)
+	p.executor = builder.NewStorageFlushingBuildExecutor(p.base, observedFlusher)
+	p.executor = builder.NewCachingBuildExecutor(p.executor, p.cas, p.ac, browserURL)
+	return p
+}
 
-	action := &remoteexecution.Action{DoNotCache: sc.DoNotCache, CommandDigest: digestOf([]byte("command")).GetProto(), InputRootDigest: digestOf(nil).GetProto()}
+// runAction executes one action on the pipeline under its own context and
+// reports what this action did. idx distinguishes the actions of a
+// sequence (they get different action digests).
+func (p *pipeline) runAction(sc *scenario, idx int) *observation {
+	w := p.w
+	command := "command"
+	if idx > 0 {
+		command = fmt.Sprintf("command-%d", idx)
+	}
+	action := &remoteexecution.Action{DoNotCache: sc.DoNotCache, CommandDigest: digestOf([]byte(command)).GetProto(), InputRootDigest: digestOf(nil).GetProto()}
 	actionData, err := proto.Marshal(action)
 	if err != nil {
 		panic(err)
@@ -258,34 +314,63 @@ func runPipeline(sc *scenario, plan map[string]string, code codes.Code) *observa
 		request.ActionDigest = &remoteexecution.Digest{Hash: "not-a-hash", SizeBytes: 3}
 	}
 
+	casBefore := map[string]bool{}
+	for _, k := range p.cas.keys() {
+		casBefore[k] = true
+	}
+	// Every action runs under a context of its own; back ends that
+	// stopped looking at the previous action's context look again.
 	ctx, cancel := context.WithCancel(context.Background())
 	defer cancel()
+	w.mu.Lock()
+	callsBefore, reachedBefore, problemsBefore := len(w.calls), len(w.reached), len(w.problems)
+	entriesBefore, flushesBefore := len(p.ac.entries), len(p.flushes)
+	w.ignoreCtx = false
 	w.cancel = cancel
-	updates := make(chan *remoteworker.CurrentState_Executing, 16)
-	response := executor.Execute(ctx, nil, nil, digestFunction, request, updates)
+	w.mu.Unlock()
+	p.base.sc, p.base.acked, p.base.putErrors, p.base.baseStatus, p.base.readers = sc, nil, 0, nil, nil
 
+	updates := make(chan *remoteworker.CurrentState_Executing, 16)
+	response := p.executor.Execute(ctx, nil, nil, digestFunction, request, updates)
+
+	w.mu.Lock()
 	obs := &observation{
-		Response:    response,
-		BaseStatus:  base.baseStatus,
-		Acked:       base.acked,
-		PutErrors:   base.putErrors,
-		ACEntries:   actionCache.entries,
-		CASKeys:     map[string]bool{},
-		Calls:       w.calls,
-		Reached:     w.reached,
-		Problems:    w.problems,
-		BufProblems: w.bufferProblems(true),
-		ActionKey:   keyOf(actionDigest),
-		Flushes:     flushResults,
+		Response:   response,
+		BaseStatus: p.base.baseStatus,
+		Acked:      p.base.acked,
+		PutErrors:  p.base.putErrors,
+		ACEntries:  append([]acEntry(nil), p.ac.entries[entriesBefore:]...),
+		CASKeys:    map[string]bool{},
+		Calls:      append([]callRec(nil), w.calls[callsBefore:]...),
+		Reached:    append([]reachedFault(nil), w.reached[reachedBefore:]...),
+		Problems:   append([]string(nil), w.problems[problemsBefore:]...),
+		ActionKey:  keyOf(actionDigest),
+		Flushes:    append([]error(nil), p.flushes[flushesBefore:]...),
 	}
-	scenarioKeys := poolKeys
-	for _, k := range globalCAS.keys() {
+	w.mu.Unlock()
+	obs.BufProblems = w.bufferProblems(true)
+	for _, k := range p.cas.keys() {
 		obs.CASKeys[k] = true
-		if !scenarioKeys[k] {
-			obs.ExtraBlobs = append(obs.ExtraBlobs, globalCAS.blobs[k])
+		if !poolKeys[k] && !casBefore[k] {
+			obs.ExtraBlobs = append(obs.ExtraBlobs, p.cas.blobs[k])
 		}
 	}
 	return obs
+}
+
+// runPipeline builds a fresh pipeline and executes the scenario once under
+// the given fault plan (call key -> fault kind; code: status code of the
+// "error" / "ack_lost" faults).
+func runPipeline(sc *scenario, plan map[string]string, code codes.Code) *observation {
+	var faults []plannedFault
+	for k, v := range plan {
+		faults = append(faults, plannedFault{Key: k, Class: classOfKey(k), Kind: v, Code: code})
+	}
+	return runPipelinePlan(sc, faults)
+}
+
+func runPipelinePlan(sc *scenario, faults []plannedFault) *observation {
+	return newPipeline(sc.BatchSize, sc.Concurrency, sc.Preexisting, sc.DelayOrder, faults).runAction(sc, 0)
 }
 
 // fallible is one call of the fault-free run at which a fault can be
@@ -350,13 +435,59 @@ type runScript struct {
 	Fault    int      `json:"fault"` // index into the canonical fallible calls; -1 = fault-free
 	Call     string   `json:"call,omitempty"`
 	Kind     string   `json:"kind,omitempty"`
-	Code     string   `json:"code,omitempty"` // status code of the injected error (kind "error")
+	Code     string   `json:"code,omitempty"` // status code of the injected error (kind "error" / "ack_lost")
+	// Second fault of the same run (pairs), -1 / empty if there is none.
+	Fault2 int    `json:"fault2"`
+	Call2  string `json:"call2,omitempty"`
+	Kind2  string `json:"kind2,omitempty"`
+	Code2  string `json:"code2,omitempty"`
 }
+
+// faultKindsFor lists the fault kinds that make sense at a call of the
+// given class: only writes can be carried out and then reported as failed;
+// after the flush a cancellation nobody notices changes nothing.
+func faultKindsFor(class string) []string {
+	switch class {
+	case "fm":
+		return []string{faultError, faultCancel, faultCancelIgnored}
+	case "put":
+		return []string{faultError, faultCancel, faultCancelIgnored, faultAckLost}
+	}
+	return []string{faultError, faultCancel, faultAckLost}
+}
+
+// drawFault turns a fallible call and a kind into a plan entry. The status
+// code of a failing call is drawn per fault: the code under test must not
+// read a particular code as success or as retryable.
+func drawFault(rt *rapid.T, f fallible, kind string) plannedFault {
+	pf := plannedFault{Key: f.Key, Class: f.Class, Kind: kind}
+	if kind == faultError || kind == faultAckLost {
+		pf.Code = rapid.SampledFrom(errorCodes).Draw(rt, "error_code")
+		pf.CodeName = pf.Code.String()
+	}
+	return pf
+}
+
+func thoroughTier() bool { return os.Getenv("VERIF_TIER") == "thorough" }
 
 func statusOK(s *status_pb.Status) bool { return status.ErrorProto(s) == nil }
 
-// checkRun is the oracle for one run. fault is nil for the fault-free run.
-func checkRun(sc *scenario, obs *observation, fault *fallible, kind string) error {
+// hardFault: a fault kind at which the back-end call returned an error.
+func hardFault(kind string) bool { return kind != faultCancelIgnored }
+
+// checkAction is the oracle for one action executed on a pipeline. What is
+// demanded follows from the faults that were REACHED during this action
+// (obs.Reached), whatever was planned:
+//   - nothing reached: the action behaves like a fault-free one, whatever
+//     happened to earlier actions on the same pipeline;
+//   - only ignored cancellations reached: the general oracles;
+//   - a failed back-end call (error, cancel, ack_lost): non-OK status, not
+//     cached, and (FindMissing / output Put) nothing advertised.
+//
+// expectNone: the plan was empty (a reached fault is a harness error).
+// mustReachOne: keys of the planned faults, at least one of which must have
+// been reached in this action (nil: no such demand).
+func checkAction(sc *scenario, obs *observation, expectNone bool, mustReachOne []string) error {
 	r := obs.Response
 	if r == nil || r.Result == nil {
 		return fmt.Errorf("pipeline returned a response without a result: %v", r)
@@ -368,12 +499,19 @@ func checkRun(sc *scenario, obs *observation, fault *fallible, kind string) erro
 	if len(obs.BufProblems) > 0 {
 		return fmt.Errorf("buffer accounting: %v", obs.BufProblems)
 	}
+	// Execute is synchronous: no back-end call it started is still running.
+	for _, c := range obs.Calls {
+		if c.Result == "running" {
+			return fmt.Errorf("back-end call %s still running after Execute returned", c.Key)
+		}
+	}
 	finalOK := statusOK(r.Status)
 
 	// Only complete, successful results reach the Action Cache.
 	if len(obs.ACEntries) > 1 {
 		return fmt.Errorf("Action Cache written %d times", len(obs.ACEntries))
 	}
+	cached := 0 // entries the pipeline was told were stored
 	for _, e := range obs.ACEntries {
 		switch {
 		case sc.Request != "ok":
@@ -388,10 +526,17 @@ func checkRun(sc *scenario, obs *observation, fault *fallible, kind string) erro
 			return fmt.Errorf("result cached under %s instead of the action digest %s", e.Key, obs.ActionKey)
 		case len(e.MissingAtPut) > 0:
 			return fmt.Errorf("result cached while the CAS lacked blobs it references: %v", e.MissingAtPut)
+		case e.AckLost:
+			// The write was issued legitimately (all of the above
+			// holds), the back end stored it and reported failure:
+			// the response must not claim success (checked below).
 		case !finalOK:
 			return fmt.Errorf("result cached but the response carries error %v", r.Status)
 		case !proto.Equal(e.Result, r.Result):
 			return fmt.Errorf("cached result %v differs from the result returned %v", e.Result, r.Result)
+		}
+		if !e.AckLost {
+			cached++
 		}
 	}
 
@@ -437,53 +582,77 @@ func checkRun(sc *scenario, obs *observation, fault *fallible, kind string) erro
 		return fmt.Errorf("base executor reported %v but the pipeline returned status %v", obs.BaseStatus, r.Status)
 	}
 
-	if fault == nil {
-		if len(obs.Reached) != 0 {
-			return fmt.Errorf("harness: fault reached in fault-free run: %v", obs.Reached)
+	if expectNone && len(obs.Reached) != 0 {
+		return fmt.Errorf("harness: fault reached in fault-free run: %v", obs.Reached)
+	}
+	if len(mustReachOne) > 0 {
+		reached := false
+		for _, f := range obs.Reached {
+			for _, k := range mustReachOne {
+				if f.Key == k {
+					reached = true
+				}
+			}
 		}
+		if !reached {
+			// The run is identical to the fault-free one up to the first fault.
+			return fmt.Errorf("harness: none of the planned faults %v was reached; calls=%+v", mustReachOne, obs.Calls)
+		}
+	}
+
+	if len(obs.Reached) == 0 {
+		// No fault during this action: it behaves like a fault-free
+		// one. In particular nothing an earlier action on the same
+		// pipeline left behind (a sticky flush error, pending or
+		// "already written" digests) shows.
 		if obs.PutErrors != 0 {
-			return fmt.Errorf("fault-free run: %d uploads were refused", obs.PutErrors)
+			return fmt.Errorf("fault-free action: %d uploads were refused", obs.PutErrors)
+		}
+		for i, flushErr := range obs.Flushes {
+			if flushErr != nil {
+				return fmt.Errorf("fault-free action: flush #%d reported %v although no back-end call failed", i, flushErr)
+			}
 		}
 		wantOK := sc.Code == 0 && sc.Request == "ok"
 		if finalOK != wantOK {
-			return fmt.Errorf("fault-free run: response status %v, expected ok=%v", r.Status, wantOK)
+			return fmt.Errorf("fault-free action: response status %v, expected ok=%v", r.Status, wantOK)
 		}
-		if got, want := len(obs.ACEntries) == 1, sc.cacheAllowed(); got != want {
-			return fmt.Errorf("fault-free run: cached=%v, but caching allowed=%v", got, want)
+		if got, want := cached == 1, sc.cacheAllowed(); got != want {
+			return fmt.Errorf("fault-free action: cached=%v, but caching allowed=%v", got, want)
 		}
 		// Everything acknowledged by the batching layer is stored once the flush succeeded.
 		for _, c := range obs.Acked {
 			if k := keyOf(digestOf([]byte(c))); !obs.CASKeys[k] {
-				return fmt.Errorf("fault-free run: acknowledged blob %q (%s) not in the CAS after a successful flush", c, k)
+				return fmt.Errorf("fault-free action: acknowledged blob %q (%s) not in the CAS after a successful flush", c, k)
 			}
 		}
 		if len(advertised) != len(referencedDigestsOfScenario(sc)) {
-			return fmt.Errorf("fault-free run: response advertises %d digests, the action produced %d", len(advertised), len(referencedDigestsOfScenario(sc)))
+			return fmt.Errorf("fault-free action: response advertises %d digests, the action produced %d", len(advertised), len(referencedDigestsOfScenario(sc)))
 		}
 		// Uncached results are stored in the CAS instead (documented extension).
 		if sc.Request == "ok" && !sc.cacheAllowed() {
 			if len(obs.ExtraBlobs) != 1 {
-				return fmt.Errorf("fault-free run: uncached result, but %d historical execute responses in the CAS", len(obs.ExtraBlobs))
+				return fmt.Errorf("fault-free action: uncached result, but %d historical execute responses in the CAS", len(obs.ExtraBlobs))
 			}
 			var her cas_proto.HistoricalExecuteResponse
 			if err := proto.Unmarshal(obs.ExtraBlobs[0], &her); err != nil || her.ExecuteResponse == nil {
-				return fmt.Errorf("fault-free run: extra CAS blob is not a HistoricalExecuteResponse: %v", err)
+				return fmt.Errorf("fault-free action: extra CAS blob is not a HistoricalExecuteResponse: %v", err)
 			}
 		}
 		return nil
 	}
 
-	reached := false
+	var hard []reachedFault
+	flushPhase := false // a FindMissing / output Put failed
 	for _, f := range obs.Reached {
-		if f.Key == fault.Key {
-			reached = true
+		if hardFault(f.Kind) {
+			hard = append(hard, f)
+			if c := classOfKey(f.Key); c == "fm" || c == "put" {
+				flushPhase = true
+			}
 		}
 	}
-	if !reached {
-		// The run is identical to the fault-free one up to the fault.
-		return fmt.Errorf("harness: planned fault %s was not reached; calls=%+v", fault.Key, obs.Calls)
-	}
-	if kind == faultCancelIgnored {
+	if len(hard) == 0 {
 		// Nothing failed at the back end: whether the operation fails is
 		// up to the code, and the oracles above (flush success => all
 		// acknowledged blobs stored, OK response / AC entry => all
@@ -491,28 +660,29 @@ func checkRun(sc *scenario, obs *observation, fault *fallible, kind string) erro
 		// the result may legitimately be cached.
 		return nil
 	}
+	// A back-end call failed (possibly after having stored what it was
+	// given): the response does not claim success.
 	if finalOK {
-		return fmt.Errorf("%s fault (%s) at %s was reached but the response has OK status", fault.Class, kind, fault.Key)
+		return fmt.Errorf("faults %v were reached but the response has OK status", hard)
 	}
-	if len(obs.ACEntries) != 0 {
-		return fmt.Errorf("%s fault (%s) at %s was reached but the result was cached", fault.Class, kind, fault.Key)
+	if cached != 0 {
+		return fmt.Errorf("faults %v were reached but the result was cached", hard)
 	}
-	switch fault.Class {
-	case "fm", "put":
+	if flushPhase {
 		// A failed output write / flush: the response no longer advertises output digests.
 		if len(advertised) != 0 {
 			var where []string
 			for _, ref := range advertised {
 				where = append(where, ref.Where)
 			}
-			return fmt.Errorf("%s fault (%s) at %s: response still advertises %v", fault.Class, kind, fault.Key, where)
+			return fmt.Errorf("faults %v: response still advertises %v", hard, where)
 		}
-	case "ac", "her":
+	} else {
 		// All outputs were flushed before; what is advertised must exist.
 		for _, ref := range advertised {
 			d, err := digestFunction.NewDigestFromProto(ref.Digest)
 			if err != nil || !obs.CASKeys[keyOf(d)] {
-				return fmt.Errorf("%s fault: response advertises %s which is not in the CAS", fault.Class, ref.Where)
+				return fmt.Errorf("faults %v: response advertises %s which is not in the CAS", hard, ref.Where)
 			}
 		}
 	}
@@ -532,37 +702,51 @@ func referencedDigestsOfScenario(sc *scenario) []string {
 
 func TestC09PipelineFaults(t *testing.T) {
 	rec := simkit.NewRecorder(t, "C09", "pipeline_faults",
-		"scenario = generated action (do_not_cache, request well-formed or not), scripted outcome (status code, exit code), 0-9 output blobs (files, trees, root dirs, stdout, stderr, server logs) drawn from 8 contents so duplicates and the empty blob are common, some already in the CAS, batch size 1-5, upload concurrency 1-3 with generated transfer order; real BatchedStoreBlobAccess -> StorageFlushingBuildExecutor -> CachingBuildExecutor over fake CAS/AC. One fault-free run enumerates the fallible calls (FindMissing, CAS Put, AC Put, historical-response Put), then one run per (call x {error with a status code drawn per fault from 12 codes, ctx cancelled, ctx cancelled but ignored by the back ends (FindMissing/output Put only)}). Oracle: AC entry => !do_not_cache & status OK & exit 0 & every referenced digest in the CAS at the moment of the AC Put; reached error/cancel fault => status non-OK & not cached & (output write/flush fault) no digests advertised; flush()==nil => every acknowledged blob stored, flush()!=nil => status non-OK & not cached & nothing advertised; OK response advertises only stored blobs; first error wins; fault-free => cached iff allowed; every buffer released exactly once. NON-TRIVIAL = fault reached and scenario has >=2 distinct blobs; distinct by (scenario, fault index, kind); evaluations = (scenario, fault) runs")
+		"scenario = generated action (do_not_cache, request well-formed or not), scripted outcome (status code, exit code), 0-9 output blobs (files, trees, root dirs, stdout, stderr, server logs) drawn from 8 contents so duplicates and the empty blob are common, some already in the CAS, batch size 1-5, upload concurrency 1-3 with generated transfer order; real BatchedStoreBlobAccess -> StorageFlushingBuildExecutor -> CachingBuildExecutor over fake CAS/AC. One fault-free run enumerates the fallible calls (FindMissing, CAS Put, AC Put, historical-response Put), then one run per (call x {error with a status code drawn per fault from 12 codes, ctx cancelled, ctx cancelled but ignored by the back ends (FindMissing/output Put only), written-but-acknowledgement-lost: the write is stored and then answered with an error (Puts only)}), then runs with TWO faults: pairs over the first 4 fallible calls and the last one (quick tier: 2 drawn pairs per scenario, thorough tier: all <=10 pairs), kinds drawn per pair. Oracle (decided by the faults REACHED in the run): AC entry => !do_not_cache & status OK & exit 0 & every referenced digest in the CAS at the moment of the AC Put (an entry stored by an ack_lost AC write is legitimate but the response must be non-OK); a reached error/cancel/ack_lost fault => status non-OK & not cached & (output write/flush fault) no digests advertised; flush()==nil => every acknowledged blob stored, flush()!=nil => status non-OK & not cached & nothing advertised; OK response advertises only stored blobs; first error wins; fault-free => cached iff allowed, flush()==nil; every buffer released exactly once; no back-end call outlives Execute. NON-TRIVIAL = fault reached and scenario has >=2 distinct blobs; distinct by (scenario, fault indices, kinds); evaluations = (scenario, fault plan) runs")
 	rapid.Check(t, func(rt *rapid.T) {
 		sc := genScenario(rt)
 		type run struct {
 			script runScript
-			fault  *fallible
+			plan   []plannedFault
 			obs    *observation
 		}
 		var runs []run
 		inBubble(t, func() {
 			free := runPipeline(&sc, nil, codes.OK)
-			runs = append(runs, run{script: runScript{Scenario: sc, Fault: -1}, obs: free})
+			runs = append(runs, run{script: runScript{Scenario: sc, Fault: -1, Fault2: -1}, obs: free})
 			calls := canonicalCalls(free.Calls)
 			for i := range calls {
-				for _, kind := range []string{faultError, faultCancel, faultCancelIgnored} {
-					f := calls[i]
-					if kind == faultCancelIgnored && f.Class != "fm" && f.Class != "put" {
-						// After the flush a cancellation nobody notices changes nothing.
-						continue
-					}
-					// The status code of a failing call is drawn per
-					// fault: the code under test must not read a
-					// particular code as success or as retryable.
-					code, codeName := codes.OK, ""
-					if kind == faultError {
-						code = rapid.SampledFrom(errorCodes).Draw(rt, "error_code")
-						codeName = code.String()
-					}
-					obs := runPipeline(&sc, map[string]string{f.Key: kind}, code)
-					runs = append(runs, run{script: runScript{Scenario: sc, Fault: i, Call: f.Class, Kind: kind, Code: codeName}, fault: &f, obs: obs})
+				for _, kind := range faultKindsFor(calls[i].Class) {
+					pf := drawFault(rt, calls[i], kind)
+					obs := runPipelinePlan(&sc, []plannedFault{pf})
+					runs = append(runs, run{script: runScript{Scenario: sc, Fault: i, Call: pf.Class, Kind: kind, Code: pf.CodeName, Fault2: -1}, plan: []plannedFault{pf}, obs: obs})
 				}
+			}
+			// Two faults in one run: pairs over the first few fallible
+			// calls and the last one (the AC / historical-response write).
+			var idx []int
+			for i := 0; i < len(calls) && i < 4; i++ {
+				idx = append(idx, i)
+			}
+			if len(calls) > 4 {
+				idx = append(idx, len(calls)-1)
+			}
+			var pairs [][2]int
+			for a := 0; a < len(idx); a++ {
+				for b := a + 1; b < len(idx); b++ {
+					pairs = append(pairs, [2]int{idx[a], idx[b]})
+				}
+			}
+			if !thoroughTier() && len(pairs) > 2 {
+				perm := rapid.Permutation(pairs).Draw(rt, "pairs")
+				pairs = perm[:2]
+			}
+			for _, pr := range pairs {
+				f1 := drawFault(rt, calls[pr[0]], rapid.SampledFrom(faultKindsFor(calls[pr[0]].Class)).Draw(rt, "kind1"))
+				f2 := drawFault(rt, calls[pr[1]], rapid.SampledFrom(faultKindsFor(calls[pr[1]].Class)).Draw(rt, "kind2"))
+				plan := []plannedFault{f1, f2}
+				obs := runPipelinePlan(&sc, plan)
+				runs = append(runs, run{script: runScript{Scenario: sc, Fault: pr[0], Call: f1.Class, Kind: f1.Kind, Code: f1.CodeName, Fault2: pr[1], Call2: f2.Class, Kind2: f2.Kind, Code2: f2.CodeName}, plan: plan, obs: obs})
 			}
 		})
 
@@ -575,8 +759,12 @@ func TestC09PipelineFaults(t *testing.T) {
 			}
 		}
 		for _, r := range runs {
-			if err := checkRun(&sc, r.obs, r.fault, r.script.Kind); err != nil {
-				rt.Fatalf("%v; script=%+v calls=%+v response=%v", err, r.script, r.obs.Calls, r.obs.Response)
+			var keys []string
+			for _, pf := range r.plan {
+				keys = append(keys, pf.Key)
+			}
+			if err := checkAction(&sc, r.obs, len(r.plan) == 0, keys); err != nil {
+				rt.Fatalf("%v; script=%+v plan=%+v calls=%+v response=%v", err, r.script, r.plan, r.obs.Calls, r.obs.Response)
 			}
 			labels := []string{fmt.Sprintf("batch=%d", sc.BatchSize), fmt.Sprintf("concurrency=%d", sc.Concurrency)}
 			if dups {
@@ -609,17 +797,27 @@ func TestC09PipelineFaults(t *testing.T) {
 			if nFM >= 2 {
 				labels = append(labels, "multi_batch")
 			}
-			if r.fault == nil {
+			switch len(r.plan) {
+			case 0:
 				labels = append(labels, "fault_free")
 				if len(r.obs.ACEntries) == 1 {
 					labels = append(labels, "fault_free:cached")
 				}
-			} else {
-				labels = append(labels, "fault:"+r.fault.Class, "kind:"+r.script.Kind)
-				if r.script.Code != "" {
-					labels = append(labels, "error_code:"+r.fault.Class+":"+r.script.Code)
+			case 1:
+				pf := r.plan[0]
+				labels = append(labels, "fault:"+pf.Class, "kind:"+pf.Kind)
+				if pf.CodeName != "" {
+					labels = append(labels, "error_code:"+pf.Class+":"+pf.CodeName)
 				}
-				if r.fault.Class == "fm" || r.fault.Class == "put" {
+				if pf.Kind == faultAckLost {
+					labels = append(labels, "ack_lost:"+pf.Class)
+					for _, e := range r.obs.ACEntries {
+						if e.AckLost {
+							labels = append(labels, "ack_lost:ac_entry_stored_response_not_ok")
+						}
+					}
+				}
+				if pf.Class == "fm" || pf.Class == "put" {
 					if r.obs.PutErrors > 0 {
 						// The sticky error of an intermediate flush surfaced in a later upload.
 						labels = append(labels, "fault_in_intermediate_flush")
@@ -629,7 +827,7 @@ func TestC09PipelineFaults(t *testing.T) {
 					if sc.cacheAllowed() && len(r.obs.ACEntries) == 0 {
 						labels = append(labels, "fault_blocks_caching")
 					}
-					if r.script.Kind == faultCancelIgnored {
+					if pf.Kind == faultCancelIgnored {
 						// Did the cancellation leave blobs unwritten (flush must fail) or not?
 						if r.obs.Flushes[len(r.obs.Flushes)-1] != nil {
 							labels = append(labels, "cancel_ignored:flush_failed")
@@ -645,8 +843,254 @@ func TestC09PipelineFaults(t *testing.T) {
 					// write the (fully stored) outputs stay advertised.
 					labels = append(labels, "late_fault_outputs_still_advertised")
 				}
+			default:
+				labels = append(labels, "two_faults", "pair:"+r.plan[0].Class+"+"+r.plan[1].Class, "pair_kinds:"+r.plan[0].Kind+"+"+r.plan[1].Kind)
+				switch len(r.obs.Reached) {
+				case 1:
+					labels = append(labels, "two_faults:one_reached")
+				default:
+					labels = append(labels, "two_faults:both_reached")
+					nHard := 0
+					for _, f := range r.obs.Reached {
+						if hardFault(f.Kind) {
+							nHard++
+						}
+					}
+					labels = append(labels, fmt.Sprintf("two_faults:both_reached:%d_failed_calls", nHard))
+				}
+				if len(r.obs.ACEntries) == 1 && !r.obs.ACEntries[0].AckLost {
+					labels = append(labels, "two_faults:cached")
+				}
 			}
-			rec.Case(r.script, r.fault != nil && distinct >= 2, labels...)
+			rec.Case(r.script, len(r.obs.Reached) > 0 && distinct >= 2, labels...)
+		}
+	})
+}
+
+// seqFault is one planned fault of a run of consecutive actions: the call
+// is named by the action in which the fault-free run makes it and its
+// index among that action's canonical fallible calls.
+type seqFault struct {
+	Action int    `json:"action"`
+	Index  int    `json:"index"`
+	Call   string `json:"call"`
+	Kind   string `json:"kind"`
+	Code   string `json:"code,omitempty"`
+}
+
+// seqScript is one run of 2-3 consecutive actions through ONE pipeline.
+type seqScript struct {
+	BatchSize   int        `json:"batch_size"`
+	Concurrency int64      `json:"concurrency"`
+	Preexisting []string   `json:"preexisting"`
+	DelayOrder  []string   `json:"delay_order"`
+	Actions     []scenario `json:"actions"`
+	Faults      []seqFault `json:"faults"` // empty = fault-free
+}
+
+func runSequence(sq *seqScript, plan []plannedFault) []*observation {
+	p := newPipeline(sq.BatchSize, sq.Concurrency, sq.Preexisting, sq.DelayOrder, plan)
+	var out []*observation
+	for j := range sq.Actions {
+		out = append(out, p.runAction(&sq.Actions[j], j))
+	}
+	return out
+}
+
+// TestC09ConsecutiveActions: carry-over between consecutive actions through
+// one BatchedStoreBlobAccess writer/flusher pair and one executor stack, as
+// cmd/bb_worker/main.go builds them once per worker thread.
+func TestC09ConsecutiveActions(t *testing.T) {
+	rec := simkit.NewRecorder(t, "C09", "consecutive_actions",
+		"2-3 generated actions (each as in pipeline_faults but 0-5 outputs; about half of a later action's outputs reuse contents of its predecessor; distinct action digests) run one after the other, each under a context of its own, through ONE pipeline: one real BatchedStoreBlobAccess writer/flusher pair -> StorageFlushingBuildExecutor -> CachingBuildExecutor over one fake CAS/AC (batch size 1-5, upload concurrency 1-3, some contents already stored). One fault-free run of the sequence enumerates the fallible calls per action; then one run of the whole sequence per (call of an action that has a successor x fault kind {error, ctx cancelled, cancelled-but-ignored, written-but-acknowledgement-lost}), plus drawn pairs (one fault in action k, one planned at a call of action k+1; quick 2, thorough 6 per sequence). Oracle per action, decided by the faults reached DURING that action: none reached => the action behaves like a fault-free one whatever happened before (no refused upload, every flush()==nil, status depends only on the scripted outcome, cached iff allowed, advertises everything it produced, every acknowledged blob in the CAS); AC entry => every referenced digest was in the CAS at the moment of the AC Put (so a blob acknowledged to action k whose flush failed cannot be referenced by the cached result of action k+1 unless k+1 really stored it); reached failing call => non-OK, not cached, flush-phase fault => nothing advertised; plus all general pipeline_faults oracles; no back-end call outlives the Execute that started it. NON-TRIVIAL = a failing back-end call reached in an action whose successor writes at least one content the faulted action also wrote; distinct by (sequence, fault plan); evaluations = (sequence, fault plan) runs")
+	rapid.Check(t, func(rt *rapid.T) {
+		sq := seqScript{
+			BatchSize:   rapid.IntRange(1, 5).Draw(rt, "batch_size"),
+			Concurrency: int64(rapid.SampledFrom([]int{1, 1, 2, 3}).Draw(rt, "concurrency")),
+		}
+		for _, c := range contentPool {
+			if rapid.IntRange(0, 5).Draw(rt, "preexisting") == 0 {
+				sq.Preexisting = append(sq.Preexisting, c)
+			}
+		}
+		if sq.Concurrency > 1 {
+			sq.DelayOrder = rapid.Permutation(contentPool).Draw(rt, "delay_order")
+		}
+		nActions := rapid.SampledFrom([]int{2, 2, 3}).Draw(rt, "n_actions")
+		var reuse []string
+		for j := 0; j < nActions; j++ {
+			sc := genScenarioWith(rt, 5, reuse)
+			// Pipeline-wide settings live in the sequence.
+			sc.BatchSize, sc.Concurrency, sc.Preexisting, sc.DelayOrder = sq.BatchSize, sq.Concurrency, nil, nil
+			sq.Actions = append(sq.Actions, sc)
+			reuse = sc.distinctContents()
+		}
+
+		type run struct {
+			script seqScript
+			plan   []plannedFault
+			first  int // action of the first planned fault (-1: none)
+			obs    []*observation
+		}
+		var runs []run
+		withFaults := func(fs ...seqFault) seqScript {
+			c := sq
+			c.Faults = fs
+			return c
+		}
+		inBubble(t, func() {
+			free := runSequence(&sq, nil)
+			runs = append(runs, run{script: sq, first: -1, obs: free})
+			calls := make([][]fallible, nActions)
+			for j := range free {
+				calls[j] = canonicalCalls(free[j].Calls)
+			}
+			describe := func(j, i int, pf plannedFault) seqFault {
+				return seqFault{Action: j, Index: i, Call: pf.Class, Kind: pf.Kind, Code: pf.CodeName}
+			}
+			// One fault in an action that has a successor.
+			for k := 0; k+1 < nActions; k++ {
+				for i := range calls[k] {
+					for _, kind := range faultKindsFor(calls[k][i].Class) {
+						pf := drawFault(rt, calls[k][i], kind)
+						plan := []plannedFault{pf}
+						runs = append(runs, run{script: withFaults(describe(k, i, pf)), plan: plan, first: k, obs: runSequence(&sq, plan)})
+					}
+				}
+			}
+			// A fault in action k and one planned at a call of action k+1.
+			nPairs := 2
+			if thoroughTier() {
+				nPairs = 6
+			}
+			for n := 0; n < nPairs; n++ {
+				k := rapid.IntRange(0, nActions-2).Draw(rt, "pair_action")
+				if len(calls[k]) == 0 || len(calls[k+1]) == 0 {
+					continue
+				}
+				i1 := rapid.IntRange(0, len(calls[k])-1).Draw(rt, "pair_call1")
+				i2 := rapid.IntRange(0, len(calls[k+1])-1).Draw(rt, "pair_call2")
+				f1 := drawFault(rt, calls[k][i1], rapid.SampledFrom(faultKindsFor(calls[k][i1].Class)).Draw(rt, "kind1"))
+				f2 := drawFault(rt, calls[k+1][i2], rapid.SampledFrom(faultKindsFor(calls[k+1][i2].Class)).Draw(rt, "kind2"))
+				plan := []plannedFault{f1, f2}
+				runs = append(runs, run{script: withFaults(describe(k, i1, f1), describe(k+1, i2, f2)), plan: plan, first: k, obs: runSequence(&sq, plan)})
+			}
+		})
+
+		for _, r := range runs {
+			for j, obs := range r.obs {
+				var mustReach []string
+				if j == r.first {
+					// The run equals the fault-free one up to its first fault.
+					mustReach = []string{r.plan[0].Key}
+				}
+				if err := checkAction(&sq.Actions[j], obs, len(r.plan) == 0, mustReach); err != nil {
+					rt.Fatalf("action %d of %d: %v; script=%+v plan=%+v calls=%+v response=%v", j, len(r.obs), err, r.script, r.plan, obs.Calls, obs.Response)
+				}
+			}
+			// Every reached fault belongs to the plan.
+			nReached := 0
+			for _, obs := range r.obs {
+				for _, f := range obs.Reached {
+					nReached++
+					planned := false
+					for _, pf := range r.plan {
+						if pf.Key == f.Key && pf.Kind == f.Kind {
+							planned = true
+						}
+					}
+					if !planned {
+						rt.Fatalf("harness: unplanned fault %+v reached; script=%+v", f, r.script)
+					}
+				}
+			}
+
+			labels := []string{fmt.Sprintf("actions=%d", nActions), fmt.Sprintf("batch=%d", sq.BatchSize), fmt.Sprintf("concurrency=%d", sq.Concurrency)}
+			nontrivial := false
+			if len(r.plan) == 0 {
+				labels = append(labels, "fault_free_sequence")
+				nCached := 0
+				for _, obs := range r.obs {
+					nCached += len(obs.ACEntries)
+				}
+				labels = append(labels, fmt.Sprintf("fault_free_sequence:cached=%d", nCached))
+			} else {
+				k := r.first
+				pf := r.plan[0]
+				if len(r.plan) == 1 {
+					labels = append(labels, "one_fault", "fault:"+pf.Class, "kind:"+pf.Kind, fmt.Sprintf("fault_in_action=%d", k))
+				} else {
+					labels = append(labels, "two_faults", "pair:"+pf.Class+"+"+r.plan[1].Class)
+					if len(r.obs[k+1].Reached) > 0 {
+						labels = append(labels, "two_faults:successor_own_fault_reached")
+					} else {
+						labels = append(labels, "two_faults:successor_fault_not_reached")
+					}
+				}
+				faulted, succ := r.obs[k], r.obs[k+1]
+				failing := false
+				for _, f := range faulted.Reached {
+					if hardFault(f.Kind) {
+						failing = true
+					}
+				}
+				if fl := faulted.Flushes; len(fl) > 0 && fl[len(fl)-1] != nil {
+					labels = append(labels, "flush_failed_in_faulted_action")
+				}
+				if faulted.PutErrors > 0 {
+					labels = append(labels, "sticky_error_refused_upload_in_faulted_action")
+				}
+				// Contents the batching layer acknowledged to action k
+				// that are not stored after it.
+				lost := map[string]bool{}
+				for _, c := range faulted.Acked {
+					if !faulted.CASKeys[keyOf(digestOf([]byte(c)))] {
+						lost[c] = true
+					}
+				}
+				if len(lost) > 0 {
+					labels = append(labels, "acknowledged_blob_lost_in_faulted_action")
+				}
+				wroteBefore := map[string]bool{}
+				for _, u := range sq.Actions[k].Uploads {
+					wroteBefore[u.Data] = true
+				}
+				shares, rewritesLost := false, false
+				for _, c := range succ.Acked {
+					if wroteBefore[c] {
+						shares = true
+					}
+					if lost[c] {
+						rewritesLost = true
+					}
+				}
+				if shares {
+					labels = append(labels, "successor_writes_same_content")
+				}
+				if rewritesLost {
+					labels = append(labels, "successor_rewrites_lost_blob")
+				}
+				succCached := false
+				for _, e := range succ.ACEntries {
+					if !e.AckLost {
+						succCached = true
+					}
+				}
+				if succCached {
+					labels = append(labels, "successor_cached")
+					if rewritesLost {
+						// The class the carry-over oracle is about: the cached
+						// result of action k+1 references a blob that was
+						// acknowledged to action k and then lost.
+						labels = append(labels, "successor_cached_referencing_lost_blob")
+					}
+				}
+				if len(succ.Reached) == 0 {
+					labels = append(labels, "successor_fault_free")
+				}
+				nontrivial = failing && shares
+			}
+			rec.Case(r.script, nontrivial, labels...)
 		}
 	})
 }
